@@ -405,6 +405,16 @@ func (p *Prog) findMapRanges() map[string]*ast.RangeStmt {
 func (p *Prog) FrameObligations(prop string) []*Obligation {
 	obls := p.frameObligations0(prop)
 	switch prop {
+	case "C15":
+		// the operand views of and / or are built by appending to shared slices: without the ownership discipline of C01 the
+		// clause generated for an operand depends on which operand is expanded next, i.e. on how the profile is written down
+		obls = append(obls, p.ownObligations(map[string]bool{"generator": true, "profile": true}, "C15")...)
+	case "C06", "C10":
+		// one JSON-LD processor configuration per call, built from the defaults: shared options (a caching document loader)
+		// carry state from one call to the next and between concurrent calls
+		obls = append(obls, p.doorObligations([]string{prop})...)
+	}
+	switch prop {
 	case "C01", "C02", "C03", "C12", "C14":
 		// these properties state what a report is as a function of the profile and the data of the same call: they presuppose
 		// that no call leaves package-level state behind for the next (or a concurrent) one - the history-independence frame of C09
@@ -425,6 +435,7 @@ func (p *Prog) FrameObligations(prop string) []*Obligation {
 				obls = append(obls, &c)
 			}
 		}
+		obls = append(obls, p.doorObligations([]string{prop})...)
 	}
 	return obls
 }
